@@ -74,6 +74,8 @@ type SimNet struct {
 	tapFn  func(r *tapRec) // called (under no lock) for every tapped buffer
 
 	faults map[string]int64
+	holdEvents bool // scenario hook: deliveries are queued but not executed
+	connFault func(id int, cl, sv *endpoint) (c2sCut, s2cCut int64, reset bool) // scenario hook: arm cuts on a new conn (-1 = none)
 	pktFilter func(from, to *endpoint, buf []byte) bool // true = drop (scenario hook)
 	crossDeliver func(from *endpoint, buf []byte) []*endpoint // extra recipients (C16)
 }
@@ -502,6 +504,15 @@ func (n *SimNet) newConnPair(cl, sv *endpoint, r *rng, faultsActive bool) (*simC
 	n.mu.Lock()
 	n.connSeq++
 	id := n.connSeq
+	if n.connFault != nil {
+		a, b, rst := n.connFault(id, cl, sv)
+		if a >= 0 {
+			c2s.cutAt, c2s.cutReset = a, rst
+		}
+		if b >= 0 {
+			s2c.cutAt, s2c.cutReset = b, rst
+		}
+	}
 	now := n.sim.Now()
 	a := &simConn{net: n, id: id, local: cl, remote: sv, in: s2c, out: c2s, closedCh: make(chan struct{}), openedAt: now}
 	b := &simConn{net: n, id: id, server: true, local: sv, remote: cl, in: c2s, out: s2c, closedCh: make(chan struct{}), openedAt: now}
